@@ -1,12 +1,12 @@
 SPECIFICATION Spec
 CONSTANTS
   TopTypes = {"int", "ptr", "AI3", "AIX", "AC4", "ACX", "APX", "MC", "B", "N", "A", "U", "SA", "SC", "SW", "AS"}
-  MaxTok = 8
+  MaxTok = 5
   MaxIdx = 2
   AllowAgg = FALSE
   DevOn = {}
   Salt = 0
   EmitCases = FALSE
-  Prune = TRUE
-INVARIANTS TypeOK StackDepth ListSortedDisjoint Refinement
+  Prune = FALSE
+INVARIANTS TypeOK StackDepth Refinement
 CHECK_DEADLOCK FALSE
